@@ -21,10 +21,12 @@ func TestVerifReplay(t *testing.T) {
 		"Verif_C13_Tables":           Verif_C13_Tables,
 		"Verif_C13_Imports":          Verif_C13_Imports,
 		"Verif_C13_ImportsChain":     Verif_C13_ImportsChain,
+		"Verif_C13_BigFile":          Verif_C13_BigFile,
 		"Verif_C13_TablesGeneric":    Verif_C13_TablesGeneric,
 		"Verif_C13_TablesMany":       Verif_C13_TablesMany,
 		"Verif_C12_Attribution":      Verif_C12_Attribution,
 		"Verif_C12_AttributionDecls": Verif_C12_AttributionDecls,
 		"Verif_C12_DocText":          Verif_C12_DocText,
+		"Verif_C12_LineWrap":         Verif_C12_LineWrap,
 	})
 }
